@@ -168,7 +168,7 @@ func checkC11(p *Parser, R0, r *CallResult, faults []kernel.Fault, recoverOn boo
 			wantEsc = "<kernel.PanicStruct>"
 		}
 		if r.Escaped != wantEsc {
-			return "panic-not-propagated", fmt.Sprintf("with Recover(false) the caller must see the panic value %s, got escaped=%q err=%q", wantEsc, r.Escaped, errMsgs(r)), nil
+			return "panic-not-propagated", fmt.Sprintf("with Recover(false) the caller must see the panic value %s, got escaped=%q err=%q", wantEsc, r.Escaped, errMsgsShort(r)), nil
 		}
 		return "", "", nil
 	}
@@ -181,7 +181,7 @@ func checkC11(p *Parser, R0, r *CallResult, faults []kernel.Fault, recoverOn boo
 			return "value-changed", fmt.Sprintf("errors returned by code blocks changed the value: %s vs %s", r.Value, R0.Value), nil
 		}
 		if strings.Join(errMsgs(r), "\n") != strings.Join(errMsgs(R0), "\n") {
-			return "error-list", fmt.Sprintf("errors made only in abandoned growth attempts must leave the result as in the fault-free run: %q vs %q", errMsgs(r), errMsgs(R0)), nil
+			return "error-list", fmt.Sprintf("errors made only in abandoned growth attempts must leave the result as in the fault-free run: %q vs %q", errMsgsShort(r), errMsgsShort(R0)), nil
 		}
 		return "", "", nil
 	}
@@ -311,10 +311,10 @@ func checkC11(p *Parser, R0, r *CallResult, faults []kernel.Fault, recoverOn boo
 		if ai < len(r.Errs) {
 			_, why = full(e, &r.Errs[ai])
 		}
-		return "error-list", fmt.Sprintf("expected error %d of %d (%s from %c%d#%d) is not at position %d of the returned list: %s; returned: %q", xi+1, len(exps), e.msgTail[2:], e.ev.Kind, e.ev.Site, e.ev.N, ai, why, errMsgs(r)), nil
+		return "error-list", fmt.Sprintf("expected error %d of %d (%s from %c%d#%d) is not at position %d of the returned list: %s; returned: %q", xi+1, len(exps), e.msgTail[2:], e.ev.Kind, e.ev.Site, e.ev.N, ai, why, errMsgsShort(r)), nil
 	}
 	if ai != len(r.Errs) {
-		return "error-list", fmt.Sprintf("the returned list has %d elements beyond the %d code-block errors: %q", len(r.Errs)-ai, ai, errMsgs(r)), nil
+		return "error-list", fmt.Sprintf("the returned list has %d elements beyond the %d code-block errors: %q", len(r.Errs)-ai, ai, errMsgsShort(r)), nil
 	}
 	if firstPanic >= 0 {
 		lastMsg := r.Errs[len(r.Errs)-1].Msg
@@ -344,6 +344,7 @@ func campaignC11(p *Parser, req *Request, resp *Response) {
 		resp.Violations = append(resp.Violations, Violation{Class: "twin-panicked", Msg: "the fault-free run panicked: " + R0.Escaped, Attrs: map[string]string{"class": "twin-panicked"}})
 		return
 	}
+	resp.statMax("max_events_in_one_parse", len(R0.Events))
 	// positions from the reference model, where it applies
 	var pos PosOracle
 	lineCol := map[int][2]int{}
@@ -455,6 +456,7 @@ func campaignC11(p *Parser, req *Request, resp *Response) {
 		if len(r.Injected) >= 2 {
 			resp.stat("runs_with_2plus_faults_fired", 1)
 		}
+		resp.statMax("max_errors_injected_in_one_parse", len(r.Injected))
 		var kept map[int]bool
 		if leftRec {
 			mc := c
